@@ -93,73 +93,79 @@ def search(ctx, deep):
                 if fam == 'gumbel' and th == 1.0:
                     cls += ':theta=1'
                 ctx.fail_input(f'{fam}.cumulative_distribution', dict(inp, theta=th), obs, req, cls)
-            grid = [rng.random() for _ in range(8)] + [1e-12, 1e-4, 0.5, 1 - 1e-4, 1 - 1e-12]
-            # boundary
-            for u in grid + [0.0, 1.0]:
-                checked += 4
-                vals = cdf(c, [(u, 0.0), (0.0, u), (u, 1.0), (1.0, u)])
-                if not (abs(vals[0]) <= 1e-12 and abs(vals[1]) <= 1e-12):
-                    bad('boundary0', {'u': u}, vals[:2].tolist(), 'C(u,0)=C(0,u)=0')
-                if not (abs(vals[2] - u) <= 1e-7 * max(u, 1e-3) + 1e-13 and abs(vals[3] - u) <= 1e-7 * max(u, 1e-3) + 1e-13):
-                    bad('boundary1', {'u': u}, vals[2:].tolist(), 'C(u,1)=C(1,u)=u')
-            pts = [(u, v) for u in grid for v in grid]
-            vals = cdf(c, pts)
-            sw = cdf(c, [(v, u) for u, v in pts])
-            for (u, v), a, b in zip(pts, vals, sw):
-                checked += 1
-                tol = 1e-9 + 1e-7 * min(u, v)
-                if not (a == a and abs(a - b) <= 1e-12 * max(1, abs(a))):
-                    bad('symmetry', {'u': u, 'v': v}, [a, b], 'C(u,v)=C(v,u)')
-                if not (max(u + v - 1, 0) - tol <= a <= min(u, v) + tol):
-                    bad('frechet', {'u': u, 'v': v}, a, 'max(u+v-1,0) <= C <= min(u,v)')
-            # generator identity on the interior
-            with np.errstate(all='ignore'):
-                for (u, v), a in zip(pts, vals):
-                    if 1e-3 < u < 1 - 1e-3 and 1e-3 < v < 1 - 1e-3 and a > 1e-6:
-                        checked += 1
-                        g = np.asarray(c.generator(np.array([a, u, v])), dtype=float)
-                        if not abs(g[0] - (g[1] + g[2])) <= 1e-6 * max(1.0, abs(g[1] + g[2])):
-                            bad('archimedean', {'u': u, 'v': v}, g.tolist(), 'phi(C)=phi(u)+phi(v)')
-                g1 = float(np.asarray(c.generator(np.array([1.0])))[0])
-                if not abs(g1) <= 1e-12:
-                    bad('generator1', {}, g1, 'generator(1)=0')
-                ts = np.array(sorted(rng.uniform(1e-3, 1) for _ in range(12)))
-                gs = np.asarray(c.generator(ts), dtype=float)
-                if not np.all(np.diff(gs) <= 1e-12 * np.abs(gs[:-1]) + 1e-15):
-                    bad('generator-decreasing', {'t': ts.tolist()}, gs.tolist(), 'generator decreasing')
-            # rectangle volumes
-            for _ in range(30):
-                u1, u2 = sorted((rng.random(), rng.random()))
-                v1, v2 = sorted((rng.random(), rng.random()))
-                if rng.random() < 0.3:
-                    u1 = rng.choice([0.0, 1e-12, 1e-4])
-                if rng.random() < 0.3:
-                    v2 = rng.choice([1.0, 1 - 1e-12])
-                r = cdf(c, [(u2, v2), (u1, v2), (u2, v1), (u1, v1)])
-                vol = r[0] - r[1] - r[2] + r[3]
-                checked += 1
-                if not vol >= -1e-9:
-                    bad('2-increasing', {'rect': [u1, u2, v1, v2]}, float(vol), 'C-volume >= 0')
-            # row independence
-            rows = B.batch(rng, 'closed')
-            if rows:
-                whole = cdf(c, rows)
-                solo = np.array([cdf(c, [r])[0] for r in rows])
-                perm = list(range(len(rows)))
-                rng.shuffle(perm)
-                sh = cdf(c, [rows[i] for i in perm])
-                checked += 1
-                same = all((a == b) or (a != a and b != b) for a, b in zip(whole, solo)) and \
-                    all((whole[i] == s) or (whole[i] != whole[i] and s != s) for i, s in zip(perm, sh))
-                if not same:
-                    bad('row-independence', {'rows': rows}, {'batch': whole.tolist(), 'solo': solo.tolist()},
-                        'row i of a batch = the row evaluated alone')
+            try:
+                grid = [rng.random() for _ in range(8)] + [1e-12, 1e-4, 0.5, 1 - 1e-4, 1 - 1e-12]
+                # boundary
+                for u in grid + [0.0, 1.0]:
+                    checked += 4
+                    vals = cdf(c, [(u, 0.0), (0.0, u), (u, 1.0), (1.0, u)])
+                    if not (abs(vals[0]) <= 1e-12 and abs(vals[1]) <= 1e-12):
+                        bad('boundary0', {'u': u}, vals[:2].tolist(), 'C(u,0)=C(0,u)=0')
+                    if not (abs(vals[2] - u) <= 1e-7 * max(u, 1e-3) + 1e-13 and abs(vals[3] - u) <= 1e-7 * max(u, 1e-3) + 1e-13):
+                        bad('boundary1', {'u': u}, vals[2:].tolist(), 'C(u,1)=C(1,u)=u')
+                pts = [(u, v) for u in grid for v in grid]
+                vals = cdf(c, pts)
+                sw = cdf(c, [(v, u) for u, v in pts])
+                for (u, v), a, b in zip(pts, vals, sw):
+                    checked += 1
+                    tol = 1e-9 + 1e-7 * min(u, v)
+                    if not (a == a and abs(a - b) <= 1e-12 * max(1, abs(a))):
+                        bad('symmetry', {'u': u, 'v': v}, [a, b], 'C(u,v)=C(v,u)')
+                    if not (max(u + v - 1, 0) - tol <= a <= min(u, v) + tol):
+                        bad('frechet', {'u': u, 'v': v}, a, 'max(u+v-1,0) <= C <= min(u,v)')
+                # generator identity on the interior
+                with np.errstate(all='ignore'):
+                    for (u, v), a in zip(pts, vals):
+                        if 1e-3 < u < 1 - 1e-3 and 1e-3 < v < 1 - 1e-3 and a > 1e-6:
+                            checked += 1
+                            g = np.asarray(c.generator(np.array([a, u, v])), dtype=float)
+                            if not abs(g[0] - (g[1] + g[2])) <= 1e-6 * max(1.0, abs(g[1] + g[2])):
+                                bad('archimedean', {'u': u, 'v': v}, g.tolist(), 'phi(C)=phi(u)+phi(v)')
+                    g1 = float(np.asarray(c.generator(np.array([1.0])))[0])
+                    if not abs(g1) <= 1e-12:
+                        bad('generator1', {}, g1, 'generator(1)=0')
+                    ts = np.array(sorted(rng.uniform(1e-3, 1) for _ in range(12)))
+                    gs = np.asarray(c.generator(ts), dtype=float)
+                    if not np.all(np.diff(gs) <= 1e-12 * np.abs(gs[:-1]) + 1e-15):
+                        bad('generator-decreasing', {'t': ts.tolist()}, gs.tolist(), 'generator decreasing')
+                # rectangle volumes
+                for _ in range(30):
+                    u1, u2 = sorted((rng.random(), rng.random()))
+                    v1, v2 = sorted((rng.random(), rng.random()))
+                    if rng.random() < 0.3:
+                        u1 = rng.choice([0.0, 1e-12, 1e-4])
+                    if rng.random() < 0.3:
+                        v2 = rng.choice([1.0, 1 - 1e-12])
+                    r = cdf(c, [(u2, v2), (u1, v2), (u2, v1), (u1, v1)])
+                    vol = r[0] - r[1] - r[2] + r[3]
+                    checked += 1
+                    if not vol >= -1e-9:
+                        bad('2-increasing', {'rect': [u1, u2, v1, v2]}, float(vol), 'C-volume >= 0')
+                # row independence
+                rows = B.batch(rng, 'closed')
+                if rows:
+                    whole = cdf(c, rows)
+                    solo = np.array([cdf(c, [r])[0] for r in rows])
+                    perm = list(range(len(rows)))
+                    rng.shuffle(perm)
+                    sh = cdf(c, [rows[i] for i in perm])
+                    checked += 1
+                    same = all((a == b) or (a != a and b != b) for a, b in zip(whole, solo)) and \
+                        all((whole[i] == s) or (whole[i] != whole[i] and s != s) for i, s in zip(perm, sh))
+                    if not same:
+                        bad('row-independence', {'rows': rows}, {'batch': whole.tolist(), 'solo': solo.tolist()},
+                            'row i of a batch = the row evaluated alone')
+            except Exception as e:  # noqa  -- every admissible theta must be served
+                bad('raises', {}, f'{vc.exc_kind(e)}: {e}'[:200], 'the CDF and generator are defined for every admissible theta')
         # theta ordering
         ths = sorted(set(B.theta_all(fam) + [B.theta_random(fam, rng) for _ in range(6)]))
         pts = [(rng.uniform(0.02, 0.98), rng.uniform(0.02, 0.98)) for _ in range(25)]
         prev = None
         for th in ths:
-            cur = cdf(B.make(fam, th), pts)
+            try:
+                cur = cdf(B.make(fam, th), pts)
+            except Exception:  # noqa  (reported above as `raises`)
+                continue
             if prev is not None:
                 checked += 1
                 if not np.all(cur >= prev[1] - 1e-9):
